@@ -141,27 +141,31 @@ SkeinOutput(G, Nb, No) ==
 \* min(nb * 2^Y, least nb * 2^j >= cap): every size >= the data length gives one single chunk at position 0
 RECURSIVE SkeinSatSize(_,_,_)
 SkeinSatSize(x, Y, cap) == IF Y = 0 \/ x >= cap THEN x ELSE SkeinSatSize(2 * x, Y - 1, cap)
-\* one level: D (bytes, total bit length Lb) cut in chunks of sz bytes, each hashed by UBI at the given level
-RECURSIVE SkeinLevelR(_,_,_,_,_,_,_,_)
-SkeinLevelR(G, D, Lb, sz, level, i, k, acc) ==
+\* The tree is written over an arbitrary UBI operator U(G, data, bits, type, level, pos) so that the SAME definition
+\* is model-checked with a symbolic U (mc/MC_SkeinTree: node ids, levels, single root) and evaluated with the real one.
+\* one level: D (bytes, total bit length Lb) cut in chunks of sz bytes, each hashed by U at the given level
+RECURSIVE SkeinLevelGR(_,_,_,_,_,_,_,_,_)
+SkeinLevelGR(U(_,_,_,_,_,_), G, D, Lb, sz, level, i, k, acc) ==
   IF i = k THEN acc
   ELSE LET lo == i * sz
            hi == IF (i + 1) * sz < Len(D) THEN (i + 1) * sz ELSE Len(D)
            lc == IF i = k - 1 THEN Lb - 8 * lo ELSE 8 * sz
-       IN SkeinLevelR(G, D, Lb, sz, level, i + 1, k,
-                      acc \o Ubi(G, SubSeq(D, lo + 1, hi), lc, TMsg, level, WFromNat(lo, 6)))
-SkeinLevel(G, D, Lb, sz, level) == SkeinLevelR(G, D, Lb, sz, level, 0, UbiNumBlocks(Len(D), sz), <<>>)
+       IN SkeinLevelGR(U, G, D, Lb, sz, level, i + 1, k,
+                       acc \o U(G, SubSeq(D, lo + 1, hi), lc, TMsg, level, WFromNat(lo, 6)))
+SkeinLevelG(U(_,_,_,_,_,_), G, D, Lb, sz, level) == SkeinLevelGR(U, G, D, Lb, sz, level, 0, UbiNumBlocks(Len(D), sz), <<>>)
 \* cur = M_l
-RECURSIVE SkeinTreeUp(_,_,_,_,_)
-SkeinTreeUp(G, cur, l, Yf, Ym) ==
+RECURSIVE SkeinTreeUpG(_,_,_,_,_,_)
+SkeinTreeUpG(U(_,_,_,_,_,_), G, cur, l, Yf, Ym) ==
   LET nb == Len(G) IN
   IF Len(cur) = nb THEN cur
-  ELSE IF l = Ym - 1 THEN Ubi(G, cur, 8 * Len(cur), TMsg, Ym, ZeroPos)
-  ELSE SkeinTreeUp(G, SkeinLevel(G, cur, 8 * Len(cur), SkeinSatSize(nb, Yf, Len(cur)), l + 1), l + 1, Yf, Ym)
-SkeinTreeMsg(G, M, L, Yl, Yf, Ym) ==
+  ELSE IF l = Ym - 1 THEN U(G, cur, 8 * Len(cur), TMsg, Ym, ZeroPos)
+  ELSE SkeinTreeUpG(U, G, SkeinLevelG(U, G, cur, 8 * Len(cur), SkeinSatSize(nb, Yf, Len(cur)), l + 1), l + 1, Yf, Ym)
+SkeinTreeMsgG(U(_,_,_,_,_,_), G, M, L, Yl, Yf, Ym) ==
   LET nb == Len(G)
       D  == Take(M, (L + 7) \div 8)
-  IN SkeinTreeUp(G, SkeinLevel(G, D, L, SkeinSatSize(nb, Yl, Len(D)), 1), 1, Yf, Ym)
+  IN SkeinTreeUpG(U, G, SkeinLevelG(U, G, D, L, SkeinSatSize(nb, Yl, Len(D)), 1), 1, Yf, Ym)
+SkeinLevel(G, D, Lb, sz, level) == SkeinLevelG(Ubi, G, D, Lb, sz, level)
+SkeinTreeMsg(G, M, L, Yl, Yf, Ym) == SkeinTreeMsgG(Ubi, G, M, L, Yl, Yf, Ym)
 
 \* ---- full Skein (s. 3.5.4) ---------------------------------------------------
 SkeinOpt(G, arg, type) == IF arg = <<>> THEN G ELSE Ubi(G, arg, 8 * Len(arg), type, 0, ZeroPos)
